@@ -180,8 +180,11 @@ var numKinds = []numKind{
 // name instead of its identity would mix up their bit sizes
 func mkLevelNarrow() numKind { type Level int8; return mkNumKind[Level]("Level/int8", "int", 8) }
 func mkLevelWide() numKind   { type Level int64; return mkNumKind[Level]("Level/int64", "int", 64) }
-func mkRatioNarrow() numKind { type Ratio float32; return mkNumKind[Ratio]("Ratio/float32", "float", 32) }
-func mkRatioWide() numKind   { type Ratio float64; return mkNumKind[Ratio]("Ratio/float64", "float", 64) }
+func mkRatioNarrow() numKind {
+	type Ratio float32
+	return mkNumKind[Ratio]("Ratio/float32", "float", 32)
+}
+func mkRatioWide() numKind { type Ratio float64; return mkNumKind[Ratio]("Ratio/float64", "float", 64) }
 
 func init() {
 	numKinds = append(numKinds, mkLevelNarrow(), mkLevelWide(), mkRatioNarrow(), mkRatioWide())
